@@ -517,6 +517,67 @@ func runC16(c *core.Ctx) {
 		}
 	}
 
+	// (3c) the path in effect is the file the operating system finds under that name: a path that leaves a
+	// symbolic link through ".." (lnk -> deep/inner, so lnk/.. is deep and not the working directory), a path
+	// with doubled separators and "./" segments, a relative path through a sub-directory; a decoy with
+	// the same base name sits where a lexical clean-up of the path would point. Every command that takes the
+	// path from the configuration, from the variable or from the flag, stats included.
+	{
+		sd := filepath.Join(c.Work, "paths")
+		os.RemoveAll(sd)
+		run.WriteFiles(sd, map[string]string{
+			"deep/book_t.yaml": "marker_db_target:\n  x: 1\nsecond:\n  x: 2\nthird:\n  x: 3\n", "deep/log_t.yaml": "2021/01/24:\n  marker_log_target: 1\n2021/01/25:\n  marker_log_target: 2\n",
+			"book_t.yaml": "marker_db_decoy:\n  x: 1\n", "log_t.yaml": "2021/01/24:\n  marker_log_decoy: 1\n", "deep/inner/keep": "",
+		})
+		os.Symlink(filepath.Join("deep", "inner"), filepath.Join(sd, "lnk"))
+		for _, shape := range []struct{ what, db, log string }{
+			{"a path that leaves a symbolic link through ..", "lnk/../book_t.yaml", "lnk/../log_t.yaml"},
+			{"a path with doubled separators and ./ segments", "deep//./book_t.yaml", "./deep/.//log_t.yaml"},
+			{"an absolute path that leaves a symbolic link through ..", sd + "/lnk/../book_t.yaml", sd + "/lnk/../log_t.yaml"},
+		} {
+			for _, via := range []string{"flag", "env", "config"} {
+				var pre []string
+				env := map[string]string{}
+				switch via {
+				case "flag":
+					pre = []string{"-d", shape.db, "-l", shape.log}
+				case "env":
+					env["HR_DATABASE"], env["HR_LOGFILE"] = shape.db, shape.log
+				case "config":
+					os.WriteFile(filepath.Join(sd, "p.conf"), []byte("[Global]\nDbFileName="+shape.db+"\nLogFileName="+shape.log+"\n"), 0o644)
+					pre = []string{"--config", "p.conf"}
+				}
+				for _, cmd := range [][]string{{"csv", "database"}, {"csv", "log"}, {"stats"}, {"reg"}, {"report", "element-total", "x"}, {"lint", shape.db}} {
+					args := append(append([]string{"--no-color"}, pre...), cmd...)
+					res := run.Exec(c.HR, args, run.ExecOpts{Dir: sd, Env: env})
+					c.Eval(1)
+					c.Count("path_shape_cases", 1)
+					c.Nontrivial("paths", shape.what, via, joinArgs(cmd))
+					bad := ""
+					switch cmd[0] {
+					case "stats":
+						st, _ := obs.ParseStats(res.Out)
+						if st.Fields["Database records"] != "3" || st.Fields["Log records"] != "2" {
+							bad = fmt.Sprintf("stats counts %q database and %q log records; the files named have 3 and 2", st.Fields["Database records"], st.Fields["Log records"])
+						}
+					case "lint":
+						if !strings.Contains(res.Out, "No errors found") {
+							bad = "lint of the named file: " + clip(res.Out+res.Serr, 100)
+						}
+					default:
+						if strings.Contains(res.Out, "decoy") || !strings.Contains(res.Out, "target") {
+							bad = fmt.Sprintf("output %q does not come from the named files", clip(res.Out, 100))
+						}
+					}
+					if res.Exit != 0 || bad != "" {
+						c.Violation("path|another-file-read", fmt.Sprintf("%s given by %s, %s: exit %d %s %s", shape.what, via, joinArgs(cmd), res.Exit, bad, clip(res.Serr, 100)),
+							caseDoc{Args: args, Env: env, Note: shape.what + "; lnk -> deep/inner, the named files are in deep/, decoys with the same base names in the working directory", Observed: resDoc(res)})
+					}
+				}
+			}
+		}
+	}
+
 	// (4) --no-database behaves as an empty book; a food.yaml decoy in the cwd must not be read
 	logText := "2021/01/24:\n  marker_db_default: 2\n  other: 1\n"
 	os.WriteFile(filepath.Join(e.dir, "nodb.yaml"), []byte(logText), 0o644)
